@@ -20,8 +20,8 @@ PROPS = {
 
 PROPS["C13"] = {
     "suites": ["renumber", "tree_frame"],
-    "level_text": "Kernel-checked theorems for all byte contents and all counter states about a Gallina transcription of processYaml/formatEndOfFile: the shared index is max(ids, titles) in every reachable state, the number written on every key line, lines without a key are copied unchanged, the output is empty or ends with exactly one newline; the unguarded 'n-th test_id is n' is refuted by a model witness that replays on the code (known finding). Tied by pins on the two patterns and the function literals and by differential runs against processYaml.",
-    "level_note": "Trusted: Coq kernel, translator, extraction, harness. Modelled: processYaml, formatEndOfFile, processFile's write decision; bufio.Scanner is the model Base/Lines.v (validated in suite scan). bytes.TrimSpace is modelled for ASCII white space only (generators avoid U+0085/U+00A0). Idempotence and --check agreement are decided per generated file by the oracle, not yet by a theorem.",
+    "level_text": "Kernel-checked theorems for all byte contents and all counter states about a Gallina transcription of processYaml/formatEndOfFile: the shared index is max(ids, titles) in every reachable state, the number written on every key line, lines without a key are copied unchanged, the output is empty or ends with exactly one newline; IDEMPOTENCE PROVED on the line lists of the property's quantifier (plain key lines, any starting counters); the unguarded 'n-th test_id is n' is refuted by a model witness that replays on the code (known finding). Tied by pins on the two patterns and the function literals and by differential runs against processYaml.",
+    "level_note": "Trusted: Coq kernel, translator, extraction, harness. Modelled: processYaml, formatEndOfFile, processFile's write decision; bufio.Scanner is the model Base/Lines.v (validated in suite scan). bytes.TrimSpace is modelled for ASCII white space only (generators avoid U+0085/U+00A0). File-level idempotence (scanner, end-of-file handling) and --check agreement are decided per generated file by the oracle; the theorem is on line lists.",
     "assumptions": ["lines handled by the regexps contain no newline (guaranteed by the scanner)", "no Unicode white space beyond ASCII at line ends"],
 }
 PROPS["C14"] = {
@@ -33,13 +33,13 @@ PROPS["C14"] = {
 
 PROPS["C09"] = {
     "suites": ["patterns", "process_line", "format_file"],
-    "level_text": "Kernel-checked theorems for all lines, indents and captures about Gallina transcriptions of processLine, formatEndOfFile, checkStandardHeader and the whole byte-level format function: indentation law (2 spaces per open block, column 0 for flag/prefix/suffix lines, body never starts with a blank), end-of-file shape, header test; idempotence over all byte contents is refuted by a model witness that replays on the binary (known finding). Tied by pins on eight patterns, the header constant and the function literals, by function-level differential runs (12 directive matchers, processLine) and by CLI runs of format / format --check on generated files compared byte for byte with the model.",
+    "level_text": "Kernel-checked theorems for all lines, indents and captures about Gallina transcriptions of processLine, formatEndOfFile, checkStandardHeader and the whole byte-level format function: indentation law (2 spaces per open block, column 0 for flag/prefix/suffix lines, body never starts with a blank), end-of-file shape, header test; idempotence PROVED at the level of lines and line lists (processLine on its own output, indentation stripped again, prints the same line and moves the indent the same way, every starting indent, error lines included) for all lines except definition/include/include-except directives (partial); idempotence over all byte contents is refuted by a model witness that replays on the binary (known finding). Tied by pins on eight patterns, the header constant and the function literals, by function-level differential runs (12 directive matchers, processLine) and by CLI runs of format / format --check on generated files compared byte for byte with the model.",
     "level_note": "Trusted: Coq kernel, translator, extraction, harness. Modelled: processLine, formatEndOfFile, checkStandardHeader, processFile's data flow, the format-only parser incl. its two panics; Go map iteration order of parseLine is an explicit order argument (both extreme orders are evaluated, the binary must agree with one). The upper-case lint of --check is observed, not modelled. Idempotence/canonical form on files with at least one entry and --check agreement are decided per generated file by the oracle.",
     "assumptions": ["no Unicode white space beyond ASCII in TrimSpace positions", "files are read and written atomically by the OS"],
 }
 PROPS["C10"] = {
     "suites": ["process_line", "format_file"],
-    "level_text": "Kernel-checked theorem that every line no directive pattern claims (entries, comments, markers) keeps its text byte for byte for all lines and indents; the directive cases are shown NOT to be white-space-only by model witnesses that replay on the binary (known finding C10-formatter-drops-text). Per generated file the oracle compares generate before/after format and the white-space-stripped line sequences on the real binary. Tied as C09.",
+    "level_text": "Kernel-checked theorem that every line no directive pattern claims (entries, comments, markers) keeps its text byte for byte for all lines and indents; for every line that is not a definition/include/include-except directive all eight directive patterns give the same answer (match and captures) on the formatted line as on the original (partial); the directive cases are shown NOT to be white-space-only by model witnesses that replay on the binary (known finding C10-formatter-drops-text). Per generated file the oracle compares generate before/after format and the white-space-stripped line sequences on the real binary. Tied as C09.",
     "level_note": "Trusted as C09. The equality generate(format x) = generate x is decided per generated file on the binary (the compiler is modelled separately, see C01), not yet by a theorem.",
     "assumptions": ["as C09"],
 }
@@ -52,8 +52,8 @@ PROPS["C11"] = {
 }
 PROPS["C12"] = {
     "suites": ["update_cli", "compare_history"],
-    "level_text": "Kernel-checked theorems: compare's verdict is byte equality; update and compare use the same location and operand delimitation for all inputs; read-after-update for every regex is refuted by a model witness (regex containing the operator marker) replayed on the binary (known finding). Histories update->compare, update->update, flip-one-byte->compare run on the binary for every generated tree; the model's read_current is compared with compare's verdict.",
-    "level_note": "Trusted as C11. The diff layout printed by compare and its exit status mapping are observed on the binary, not modelled. read-after-update for marker-free regexes is decided per generated case, not yet by a theorem.",
+    "level_text": "Kernel-checked theorems: compare's verdict is byte equality; update and compare use the same location and operand delimitation for all inputs; ROUND TRIP PROVED: for every rules file, id, offset and new operand without newline in which no operator marker ends and which leaves the line in the same class for the locator, compare's reader returns exactly what update wrote and the verdict is 'unchanged' exactly for that byte string; a marker cannot straddle the end of group 1 (so 'no marker inside the operand' suffices); read-after-update for every regex is refuted by a model witness (regex containing the operator marker) replayed on the binary (known finding). Histories update->compare, update->update, flip-one-byte->compare run on the binary for every generated tree; the model's read_current is compared with compare's verdict.",
+    "level_note": "Trusted as C11. The diff layout printed by compare and its exit status mapping are observed on the binary, not modelled. The locator-class premise of the round-trip theorem (the new line mentions id:<id> and SecRule exactly when the old one did) is checked per generated case.",
     "assumptions": ["as C11"],
 }
 
@@ -71,7 +71,7 @@ GEN_TRUST = ["rassemble-go and regexp/syntax are not modelled: rassemble.Join is
 PROPS["C01"] = {
     "suites": ["passes", "generate"],
     "trusted": GEN_TRUST,
-    "level_text": "Kernel-checked soundness theorem of a derivative-based equivalence/inclusion checker for regular expressions with begin/end-of-text assertions (for all expressions, all contexts, all subject strings over the compared alphabet); kernel-checked structure theorems about a Gallina transcription of the whole generate pipeline (parser, include handling, definition expansion, Assemble/CmdLine processors, processor stack, complete, the six string passes) with rassemble.Join as an oracle: every alternation is grouped before concatenation, block results have one of four shapes, the final text is the sorted flag prefix plus printable text; the single-pending-line case is refuted by a model witness that replays on the binary (known finding); the space-range defect of includeVerticalTabInSpaceClass found by the equivalence oracle is repaired in /repo (fix: df79445). Tied by pins on all literals/patterns of the modelled functions, by function-level differential runs of every pass and by end-to-end runs of generated programs through the binary and the model (byte equality of stdout, error class). Per generated program the proved-sound checker decides language equality between the real output and the program's plain reading for ALL subject strings (translation validation).",
+    "level_text": "Kernel-checked soundness theorem of a derivative-based equivalence/inclusion checker for regular expressions with begin/end-of-text assertions (for all expressions, all contexts, all subject strings over the compared alphabet); kernel-checked structure theorems about a Gallina transcription of the whole generate pipeline (parser, include handling, definition expansion, Assemble/CmdLine processors, processor stack, complete, the six string passes) with rassemble.Join as an oracle: every alternation is grouped before concatenation, block results have one of four shapes, the final text is the sorted flag prefix plus printable text; REFINEMENT THEOREM (simulation proof over all programs, optimisers and notions of meaning obeying seven laws about regex text): the text the operator hands to the final passes means prefixes . plain reading . suffixes, where the plain reading is a machine over meanings that never looks at regex text; the laws are proved for a small regex syntax with set-of-strings semantics (instance theorem), for RE2 they are premises checked per program by the oracle; the call order of the final passes in complete() is regenerated from the AST and pinned; the single-pending-line case is refuted by a model witness that replays on the binary (known finding); the space-range defect of includeVerticalTabInSpaceClass found by the equivalence oracle is repaired in /repo (fix: df79445). Tied by pins on all literals/patterns of the modelled functions, by function-level differential runs of every pass and by end-to-end runs of generated programs through the binary and the model (byte equality of stdout, error class). Per generated program the proved-sound checker decides language equality between the real output and the program's plain reading for ALL subject strings (translation validation).",
     "level_note": "Trusted: Coq kernel, translator, extraction, harness generators, Go's regexp/syntax as the definition of RE2 syntax. The optimiser (rassemble-go) is not modelled: that its results preserve the language is decided per generated program by the verified checker, not proved for all programs. Out-of-fuel verdicts of the checker are counted as no verdict. Programs: <= 14 items, depth <= 3.",
     "assumptions": ["the alphabet compared excludes the vertical tab, as the property prescribes", "entries contain no inline flag groups and no word boundaries"],
 }
@@ -85,7 +85,7 @@ PROPS["C02"] = {
 PROPS["C03"] = {
     "suites": ["expand_defs", "replace_suffixes", "fuzz_generate", "generate", "generate_defs"],
     "trusted": GEN_TRUST,
-    "level_text": "Go map iteration is an explicit order argument of the model. Kernel-checked theorems for all orders: every line is claimed by at most one of the seven directive patterns (proved from the matchers; holds since IncludeRegex is anchored, a genuine defect repaired by fix: 597d59c), hence line classification is the same for every iteration order; suffix replacement is order-independent for non-interfering pair lists; the include-except sort undoes any iteration order of the line map; the flag prefix is sorted; a run does not read process state left by an earlier run. The part the code violates (chained replacement pairs) is refuted by a model witness that replays on the binary (known finding); cyclic definitions are a further recorded finding. Tied by pins and by differential runs in which the Go result must lie in the model's result set over all orders; every generated program is additionally executed three times in fresh processes (stdin and file path) and all outputs must be equal.",
+    "level_text": "Go map iteration is an explicit order argument of the model. Kernel-checked theorems for all orders: every line is claimed by at most one of the seven directive patterns (proved from the matchers; holds since IncludeRegex is anchored, a genuine defect repaired by fix: 597d59c), hence line classification is the same for every iteration order; WHOLE-COMMAND THEOREM: for all main, include and exclude files the result of generate does not depend on the iteration order of the pattern map nor of the inclusion-line map (any permutations); suffix replacement is order-independent for non-interfering pair lists; the include-except sort undoes any iteration order of the line map; the flag prefix is sorted; a run does not read process state left by an earlier run. The part the code violates (chained replacement pairs) is refuted by a model witness that replays on the binary (known finding); cyclic definitions are a further recorded finding. Tied by pins and by differential runs in which the Go result must lie in the model's result set over all orders; every generated program is additionally executed three times in fresh processes (stdin and file path) and all outputs must be equal.",
     "level_note": "Trusted as C01. Schedules are proved for the modelled map loops only; other runtime sources of nondeterminism are sampled by repeated fresh executions. Order independence of definition expansion is decided per generated case (model result set over all 576 order pairs), not yet by a theorem.",
     "assumptions": ["as C01"],
 }
